@@ -368,6 +368,7 @@ AlgsEd == {"ed"}
 AlgsP == {"p256"}
 AlgsBoth == {"ed", "p256"}
 NoMutations == {}
+ExtMutations == {"SetExt", "Reorder", "Splice", "Forge", "Malleate", "SetPayload", "Identity"}
 IdMutations == {"Malleate", "SetSig", "Identity", "Proof", "Reorder"}
 OnlyIdentity == {"Identity"}
 AllMutations == {"SetPayload", "SetNextKey", "SetSig", "SetVer", "SetExt", "Reorder", "Truncate",
